@@ -162,9 +162,57 @@ func Collect(it search.DocumentMatchIterator, loadStored bool) ([]Hit, error) {
 
 // SearchIDs runs a request on a reader and returns the hits.
 func SearchIDs(r *bluge.Reader, req bluge.SearchRequest) ([]Hit, error) {
-	it, err := r.Search(context.Background(), req)
-	if err != nil {
-		return nil, err
+	hits, _, err := SafeCollect(r, req, false)
+	return hits, err
+}
+
+var defaultSearchCfg = bluge.InMemoryOnlyConfig()
+
+// ErrStepLimit is returned by SafeSearch when the search was aborted by the step counter.
+var ErrStepLimit = fmt.Errorf("search aborted: more than %d dictionary look-ups (see C10 known finding: byte-wise range enumeration)", SafeLimit)
+
+// SafeLimit is the look-up budget of SafeSearch.
+const SafeLimit = 2000000
+
+// SafeSearch runs a request the way Reader.Search does (default search-side configuration),
+// but through the step-counting reader, so that a search that would practically never
+// return is aborted. Panics inside the search are returned as errors prefixed "panic:".
+func SafeSearch(rd *bluge.Reader, req bluge.SearchRequest) (it search.DocumentMatchIterator, err error) {
+	cr := &CountingReader{Reader: rd.VerifSnapshot(), Limit: SafeLimit}
+	e, aborted, panicked := Guarded(func() error {
+		var err2 error
+		it, err2 = SearchVia(context.Background(), cr, defaultSearchCfg, req)
+		return err2
+	})
+	if aborted != nil {
+		return nil, ErrStepLimit
 	}
-	return Collect(it, false)
+	if panicked != "" {
+		return nil, fmt.Errorf("panic: %s", panicked)
+	}
+	return it, e
+}
+
+// SafeCollect runs the request through SafeSearch and drains it, all under the step and
+// panic guard. The aggregations bucket is returned as well.
+func SafeCollect(rd *bluge.Reader, req bluge.SearchRequest, loadStored bool) (hits []Hit, aggs *search.Bucket, err error) {
+	cr := &CountingReader{Reader: rd.VerifSnapshot(), Limit: SafeLimit}
+	e, aborted, panicked := Guarded(func() error {
+		it, err2 := SearchVia(context.Background(), cr, defaultSearchCfg, req)
+		if err2 != nil {
+			return err2
+		}
+		hits, err2 = Collect(it, loadStored)
+		if err2 == nil {
+			aggs = it.Aggregations()
+		}
+		return err2
+	})
+	if aborted != nil {
+		return nil, nil, ErrStepLimit
+	}
+	if panicked != "" {
+		return nil, nil, fmt.Errorf("panic: %s", panicked)
+	}
+	return hits, aggs, e
 }
